@@ -61,8 +61,6 @@ Section SortLemmas.
     cbn [insert_sorted]. unfold le_cmp in Hx. rewrite Hx. reflexivity.
   Qed.
 
-  (* the answers of the comparator do not contradict each other *)
-  Definition cmp_consistent : Prop := forall a b, cmp a b = Gt -> cmp b a <> Gt.
 
   Lemma insert_sorted_head x l : exists r, insert_sorted cmp x l = x :: r \/
     (exists y l', l = y :: l' /\ gtb cmp x y = true /\ insert_sorted cmp x l = y :: r).
@@ -73,7 +71,7 @@ Section SortLemmas.
     - exists (y :: l'). left. reflexivity.
   Qed.
 
-  Lemma insert_sorted_lsorted x l : cmp_consistent -> lsorted l -> lsorted (insert_sorted cmp x l).
+  Lemma insert_sorted_lsorted x l : cmp_consistent cmp -> lsorted l -> lsorted (insert_sorted cmp x l).
   Proof.
     intros Hc. induction l as [|y r IH]; [intros _; cbn; auto|].
     intros Hs. cbn [insert_sorted]. destruct (gtb cmp x y) eqn:E.
@@ -86,12 +84,12 @@ Section SortLemmas.
     - cbn [lsorted]. split; [exact E|exact Hs].
   Qed.
 
-  Lemma sort_by_lsorted l : cmp_consistent -> lsorted (sort_by cmp l).
+  Lemma sort_by_lsorted l : cmp_consistent cmp -> lsorted (sort_by cmp l).
   Proof.
     intros Hc. induction l as [|x r IH]; [exact I|]. cbn [sort_by]. apply insert_sorted_lsorted; assumption.
   Qed.
 
-  Theorem sort_by_idem l : cmp_consistent -> sort_by cmp (sort_by cmp l) = sort_by cmp l.
+  Theorem sort_by_idem l : cmp_consistent cmp -> sort_by cmp (sort_by cmp l) = sort_by cmp l.
   Proof. intros Hc. apply sort_by_sorted. apply sort_by_lsorted. exact Hc. Qed.
 
   Lemma insert_sorted_perm x l : Permutation (insert_sorted cmp x l) (x :: l).
@@ -327,8 +325,6 @@ Proof.
 Qed.
 
 (* ---- Entry::wrap_and_sort ---- *)
-(* a formatter that returns (never panics) *)
-Definition pure_fmt (g : str -> str -> str) : str -> str -> res str := fun k v => Ok (g k v).
 
 Definition conts_nonempty (f : field) : bool := forallb (fun ct => nonempty_line (snd ct)) (f_cont f).
 Lemma conts_nonempty_map f : conts_nonempty f = true -> forallb nonempty_line (map snd (f_cont f)) = true.
@@ -462,14 +458,6 @@ Proof.
   rewrite flat_map_app, item_elems_comments. reflexivity.
 Qed.
 
-(* the caller's comparator on entries depends only on names and values *)
-Definition ecmp_agrees (esort : option (tree -> tree -> comparison)) (ecmp : option pair_cmp) : Prop :=
-  match esort, ecmp with
-  | Some a, Some b => forall f g, a (field_tree f) (field_tree g) = b (field_pair f) (field_pair g)
-  | None, None => True
-  | _, _ => False
-  end.
-
 Definition field_ok (fmt : option (str -> str -> str)) (f : field) : Prop :=
   f_name f <> [] /\ conts_nonempty f = true /\ fmt_lexes fmt f.
 Definition items_ok (fmt : option (str -> str -> str)) (its : list item) : Prop :=
@@ -528,13 +516,6 @@ Proof.
   - destruct (group_blocks r []) as [gs tr] eqn:E. cbn [fst] in H. destruct H as [<-|H]; [left; reflexivity|].
     right. apply (IH [] g). rewrite E. exact H.
 Qed.
-
-Definition pcmp_agrees (psort : option (tree -> tree -> comparison)) (pcmp : option para_cmp) : Prop :=
-  match psort, pcmp with
-  | Some a, Some b => forall x y, a (lblock_tree (LPara x)) (lblock_tree (LPara y)) = b (flat_map item_pairs x) (flat_map item_pairs y)
-  | None, None => True
-  | _, _ => False
-  end.
 
 (* the caller's paragraph function does on the tree what [pf] does on the items *)
 Definition pfun_agrees (pfun : option (tree -> res tree)) (pf : list item -> list item) (its : list item) : Prop :=
@@ -1285,8 +1266,6 @@ Proof.
   apply rebuild_field_nl.
 Qed.
 
-Definition pair_cmp_consistent (ecmp : option pair_cmp) : Prop :=
-  match ecmp with Some e => cmp_consistent e | None => True end.
 
 (* what makes a second application of the field step a no-op, and the comparator see the same thing *)
 Definition field_stable (c : wcfg) (fmt : option (str -> str -> str)) (f : field) : Prop :=
@@ -1404,8 +1383,6 @@ Proof.
   - rewrite terminate_doc_app by discriminate. rewrite terminate_doc_comments. reflexivity.
 Qed.
 
-Definition para_cmp_consistent (pcmp : option para_cmp) : Prop :=
-  match pcmp with Some p => cmp_consistent p | None => True end.
 
 Theorem a_ws_doc_idem pcmp pf l :
   para_cmp_consistent pcmp ->
@@ -1621,17 +1598,16 @@ Section Top.
 
   (* Deb822::wrap_and_sort(sort_paragraphs, |p| p.wrap_and_sort(indentation, immediate_empty_line,
      max_line_length_one_liner, sort_entries, format_value)) *)
-  Definition std_ws (t : tree) : res tree :=
-    doc_ws fixed psort (Some (para_ws fixed (c_ind c) (c_iel c) (c_mll c) esort (option_map pure_fmt fmt))) t.
+  Local Notation std_ws' := (std_ws fixed c psort esort (option_map pure_fmt fmt)).
   Definition a_std (l : ldocl) : ldocl := a_ws_doc pcmp (a_ws_items c ecmp fmt) l.
 
   Hypothesis Hind : ind_ok c = true.
   Hypothesis Hp : pcmp_agrees psort pcmp.
   Hypothesis He : ecmp_agrees esort ecmp.
 
-  Theorem std_ws_commute l : doc_fields_ok fmt l -> std_ws (ltree_of l) = Ok (ltree_of (a_std l)).
+  Theorem std_ws_commute l : doc_fields_ok fmt l -> std_ws' (ltree_of l) = Ok (ltree_of (a_std l)).
   Proof.
-    intros Hok. apply doc_ws_blocks; [exact Hp|]. intros its Hi. unfold pfun_agrees. cbn [lblock_tree].
+    intros Hok. unfold std_ws. apply doc_ws_blocks; [exact Hp|]. intros its Hi. unfold pfun_agrees. cbn [lblock_tree].
     apply para_ws_items; [exact Hind|exact He|]. intros f Hf. apply (Hok its f Hi Hf).
   Qed.
 
@@ -1739,10 +1715,98 @@ Section Top.
 
   Theorem std_ws_idem l : doc_fields_ok fmt l -> stable_on l ->
     pair_cmp_consistent ecmp -> para_cmp_consistent pcmp -> ecmp_invariant_on l -> pcmp_invariant_on l ->
-    std_ws (ltree_of (a_std l)) = Ok (ltree_of (a_std l)).
+    std_ws' (ltree_of (a_std l)) = Ok (ltree_of (a_std l)).
   Proof.
     intros Hok Hst Hce Hcp Hie Hip. rewrite std_ws_commute.
     - rewrite (a_std_idem l Hok Hst Hce Hcp Hie Hip). reflexivity.
     - apply fields_ok_a_std; [exact Hok|]. intros its f Hi Hf. apply (Hst its f Hi Hf).
   Qed.
 End Top.
+
+(* ---------------------------------------------------------------- without a formatter *)
+Lemma field_stable_nofmt c f : conts_nonempty f = true -> field_stable c None f.
+Proof. intros H. split; [apply a_ws_field_idem_nofmt; exact H|apply a_ws_field_pair; [exact H|exact I]]. Qed.
+
+Lemma stable_on_nofmt c l : doc_fields_ok None l -> stable_on c None l.
+Proof.
+  intros Hok its f Hi Hf. destruct (Hok its f Hi Hf) as (_ & Hc & _). split; [apply field_stable_nofmt; exact Hc|exact I].
+Qed.
+
+Lemma ecmp_invariant_nofmt ecmp l : ecmp_invariant_on ecmp None l.
+Proof. intros its f g _ _ _. destruct ecmp; [reflexivity|exact I]. Qed.
+
+Lemma lcontent_paras l : lcontent l = map (flat_map item_pairs) (paras_of l).
+Proof. unfold lcontent, paras_of. induction l as [|b r IH]; [reflexivity|]. destruct b; cbn [flat_map map app]; rewrite IH; reflexivity. Qed.
+
+(* the content afterwards, as a function of the content before *)
+Theorem a_std_content_nofmt c pcmp ecmp l : doc_fields_ok None l ->
+  lcontent (a_std c pcmp ecmp None l) = map (sort_opt ecmp) (sort_opt pcmp (lcontent l)).
+Proof.
+  intros Hok. unfold a_std. rewrite a_ws_doc_content, lcontent_paras.
+  assert (E : sort_opt pcmp (map (flat_map item_pairs) (paras_of l)) = map (flat_map item_pairs) (sort_opt (option_map on_items pcmp) (paras_of l))).
+  { apply sort_opt_map. destruct pcmp; cbn [option_map]; [|exact I]. intros x y. reflexivity. }
+  rewrite E, map_map. apply map_ext_in. intros its Hi.
+  assert (Hin : In (LPara its) l).
+  { apply sort_opt_In in Hi. unfold paras_of in Hi. apply in_flat_map in Hi. destruct Hi as (b & Hb & Hi).
+    destruct b; try contradiction. destruct Hi as [<-|[]]. exact Hb. }
+  rewrite a_ws_items_pairs by (intros f Hf; apply (Hok its f Hin Hf)). apply spec_para_nofmt.
+Qed.
+
+Lemma filter_all_id {A} (p : A -> bool) l : forallb p l = true -> filter p l = l.
+Proof.
+  induction l as [|x r IH]; [reflexivity|]. cbn [forallb filter]. intros H. apply andb_true_iff in H. destruct H as [H1 H2].
+  rewrite H1, (IH H2). reflexivity.
+Qed.
+
+(* a parsed well-formed document has no empty paragraph, and sorting does not make one *)
+Lemma nonempty_paras_sorted (pcmp : option para_cmp) (ecmp : option pair_cmp) (cs : list (list (str * str))) :
+  nonempty_paras cs = cs -> nonempty_paras (map (sort_opt ecmp) (sort_opt pcmp cs)) = map (sort_opt ecmp) (sort_opt pcmp cs).
+Proof.
+  intros H. unfold nonempty_paras in *.
+  assert (Hall : forall p, In p cs -> p <> []).
+  { intros p Hp. rewrite <- H in Hp. apply filter_In in Hp. destruct Hp as [_ Hp]. destruct p; [discriminate|discriminate]. }
+  apply filter_all_id. apply forallb_forall. intros q Hq. apply in_map_iff in Hq. destruct Hq as (p & <- & Hp).
+  apply sort_opt_In in Hp. specialize (Hall p Hp).
+  pose proof (Permutation_length (sort_opt_perm ecmp p)) as Hlen.
+  destruct (sort_opt ecmp p); [destruct p; [congruence|discriminate]|reflexivity].
+Qed.
+
+(* ---------------------------------------------------------------- C07 for the repaired code *)
+Lemma ldoc_of_lift d : ldoc_of d = lift d.
+Proof. reflexivity. Qed.
+
+Lemma nonempty_paras_content d : nonempty_paras (content d) = content d.
+Proof.
+  unfold nonempty_paras, content. induction d as [|b r IH]; [reflexivity|]. cbn [flat_map]. rewrite filter_app, IH.
+  destruct b; reflexivity.
+Qed.
+
+Lemma lcontent_lift d : lcontent (lift d) = content d.
+Proof. rewrite <- doc_items_ltree_of, ltree_of_lift. apply doc_items_tree_of. Qed.
+
+Lemma pf_keeps_wf_items c ecmp fmt l : ind_ok c = true -> doc_shaped fmt l -> pf_keeps_wf (a_ws_items c ecmp fmt) l.
+Proof.
+  intros Hi Hs its m Hin Hwf. exists m. apply wf_a_ws_items; [exact Hi|exact Hwf|]. intros f Hf. apply (Hs its f Hin Hf).
+Qed.
+
+Theorem C07_full_fixed : C07_full fixed.
+Proof.
+  intros c psort pcmp esort ecmp d Hind Hp He Hce Hcp Hpi Hwf l1.
+  assert (Hl : lwf (lift d) = true) by (apply lwf_lift; exact Hwf).
+  assert (Hsh : doc_shaped None (lift d)) by (intros its f _ _; reflexivity).
+  pose proof (lwf_fields_ok None (lift d) Hl Hsh) as Hok.
+  exists (ltree_of l1). subst l1. rewrite ldoc_of_lift.
+  change (a_ws_doc pcmp (a_ws_items c ecmp None) (lift d)) with (a_std c pcmp ecmp None (lift d)).
+  assert (Hcontent : doc_items (ltree_of (a_std c pcmp ecmp None (lift d))) = map (sort_opt ecmp) (sort_opt pcmp (content d))).
+  { rewrite doc_items_ltree_of, (a_std_content_nofmt c pcmp ecmp (lift d) Hok), lcontent_lift. reflexivity. }
+  split; [|split; [reflexivity|split; [exact Hcontent|split; [|split; [|split]]]]].
+  - rewrite <- ltree_of_lift. apply (std_ws_commute c psort pcmp esort ecmp None Hind Hp He (lift d) Hok).
+  - destruct (a_ws_doc_reread pcmp (a_ws_items c ecmp None) (lift d) Hl (pf_keeps_wf_items c ecmp None (lift d) Hind Hsh)) as (t' & E1 & E2).
+    exists t'. split; [exact E1|]. rewrite E2. unfold a_std in *. rewrite <- doc_items_ltree_of, Hcontent.
+    apply nonempty_paras_sorted. apply nonempty_paras_content.
+  - apply a_ws_doc_indented. intros its. apply a_ws_items_indented.
+  - apply a_ws_doc_single_blanks.
+  - apply (std_ws_idem c psort pcmp esort ecmp None Hind Hp He (lift d) Hok (stable_on_nofmt c (lift d) Hok) Hce Hcp (ecmp_invariant_nofmt ecmp (lift d))).
+    intros a b _ _. specialize (Hpi (flat_map item_pairs a) (flat_map item_pairs b)). destruct pcmp as [p|]; [|exact I].
+    rewrite !spec_para_nofmt. exact Hpi.
+Qed.
